@@ -15,7 +15,7 @@ for f in sys.argv[1:]:
 lines = ["| id | breaks | file(s) changed | what it needs to manifest | target check (quick) | first counterexample: item; verdict | also reported by |",
          "|---|---|---|---|---|---|---|"]
 caught = missed = 0
-for sid in sorted(os.listdir(os.path.join(ROOT, "seeded"))):
+for sid in sorted(d for d in os.listdir(os.path.join(ROOT, "seeded")) if os.path.isdir(os.path.join(ROOT, "seeded", d))):
     meta = json.load(open(os.path.join(ROOT, "seeded", sid, "meta.json")))
     p = meta["property"]
     row = m.get(sid, {})
